@@ -292,7 +292,7 @@ def strict_trace(run):
     for ex in run.exchanges:
         if ex['cm']['coded']:
             return None
-        if ex['cm'].get('interim_code', 100) != 100:
+        if ex['cm'].get('interim_code', 100) != 100 or ex['cm'].get('nonabstract'):
             return None
         am = M.abstract_of(ex['cm'])
         if am is None:
